@@ -193,6 +193,21 @@ pub fn ed_pub_valid(pk: &[u8]) -> bool {
     CompressedEdwardsY(b).decompress().is_some()
 }
 
+/// The 32 bytes decompress to a point of small order (one of the eight torsion points).
+pub fn ed_small_order(b: &[u8]) -> bool {
+    if b.len() != 32 {
+        return false;
+    }
+    let mut a = [0u8; 32];
+    a.copy_from_slice(b);
+    CompressedEdwardsY(a).decompress().map_or(false, |p| p.is_small_order())
+}
+
+/// Encodings of the eight small-order points.
+pub fn ed_torsion_points() -> Vec<[u8; 32]> {
+    curve25519_dalek::constants::EIGHT_TORSION.iter().map(|p| p.compress().to_bytes()).collect()
+}
+
 pub fn ed_sign(seed: &[u8; 32], msg: &[u8]) -> [u8; 64] {
     let (a, prefix) = ed_expand(seed);
     let pk = EdwardsPoint::mul_base(&a).compress().to_bytes();
